@@ -16,12 +16,14 @@ from . import c04
 from .c01 import build_base
 
 PROP = "C06"
+HINT_KEY = "metadata.version-hint.text"
 LEVEL = "exploration"
 RULE = ("One collector (garbage_collect with grace 1 h or 10 h) + 1-2 transactions (append, multi-append, delete_files; committing, retrying after losing a "
         "race, or rolling back) on local and conditional-write S3. A transaction may have done its append_data BEFORE the run (long-running load): its data "
         "file is then aged 2 h, i.e. older than the grace period when it commits; a SLOW committer has every data file, manifest and manifest list it "
         "completes before the collector's first step aged 2 h right after writing it (a stall longer than the grace period, shorter than the 24 h marker timeout, between any write and the commit point); "
-        "the base may hold a two-file manifest so that delete_files rewrites it. Grace is never 0. Interleavings are owned by the deterministic scheduler: exhaustive single-preemption enumeration for "
+        "the base may hold a two-file manifest so that delete_files rewrites it; on object storage a transaction's pointer PUT may time out on every attempt while "
+        "the first request lands after everybody has finished (ambiguous outcome that turns out committed). Grace is never 0. Interleavings are owned by the deterministic scheduler: exhaustive single-preemption enumeration for "
         "fixed scenarios and Hypothesis PCT schedules (<=3 change points) over generated ones. Oracle when all actors have finished: every file of every "
         "snapshot in the final metadata exists and verifies (independent reader), and the rows of every acknowledged transaction are readable; a collector "
         "raising GarbageCollectionAborted is acceptable. Non-trivial: the collector's metadata read, marker read and listings did not all fall on the same "
@@ -75,7 +77,17 @@ def run_case(case):
         seen_files = set(world.fs().list("data") + world.fs().list("metadata/manifests")) if sc.get("slow") else None
         gc_started = [False]
 
+        # 'late' transactions (object storage): every attempt of their pointer PUT times out on the client side, but the FIRST
+        # request is still on its way and lands after everybody has finished - the commit was ambiguous and turns out committed
+        late_tx = {f"tx{i}" for i, txs in enumerate(sc["txs"]) if txs.get("late") and world.kind != "local"}
+        in_flight = {}
+
         def on_event(sch, a, phase, label, target, info):
+            if a.name in late_tx and phase == "before" and label.startswith("s3:put") and target == HINT_KEY:
+                from botocore.exceptions import ReadTimeoutError
+
+                in_flight.setdefault(a.name, dict(info))
+                raise ReadTimeoutError(endpoint_url="http://fake-s3")
             if a.name == "gc":
                 gc_started[0] = True
             if seen_files is not None and not gc_started[0] and a.name != "gc" and phase == "after" and ("write" in label or "replace" in label or "put" in label):
@@ -160,6 +172,13 @@ def run_case(case):
             return actors
 
         run = run_scheduled(world, make_actors, case["schedule"], seed=case.get("seed", 0), on_event=on_event)
+        for name, req in in_flight.items():
+            # the delayed request reaches the store now (its precondition is evaluated at landing)
+            try:
+                world.fake.put_object(Bucket="bkt", Key=world.key_prefix + "/" + HINT_KEY, Body=req["body"], IfMatch=req.get("IfMatch"), IfNoneMatch=req.get("IfNoneMatch"))
+                out["labels"].append("late-pointer-write-landed")
+            except Exception:
+                out["labels"].append("late-pointer-write-rejected")
         out["labels"] += [f"world:{sc['world']}"] + (["preaged-file"] if any(t.get("preaged") for t in sc["txs"]) else [])
         out["labels"] += (["slow-committer"] if sc.get("slow") else []) + (["partial-manifest-delete"] if sc.get("multi_base") and any(t["op"] == "delete" for t in sc["txs"]) else [])
         if run.error is not None:
@@ -205,6 +224,7 @@ FIXED = [
     {"world": "s3cas", "nprior": 1, "txs": [{"op": "append", "preaged": True, "end": "rollback"}, {"op": "append"}]},
     {"world": "local", "nprior": 1, "multi_base": True, "slow": True, "txs": [{"op": "delete", "which": 1}]},
     {"world": "local", "nprior": 1, "slow": True, "txs": [{"op": "multi"}, {"op": "append"}]},
+    {"world": "s3cas", "nprior": 1, "txs": [{"op": "append", "preaged": True, "late": True}]},
 ]
 
 
@@ -238,7 +258,8 @@ def pct_case(draw):
     txs = []
     for _ in range(draw(st.integers(1, 2))):
         op = draw(st.sampled_from(["append", "append", "multi", "delete"]))
-        txs.append({"op": op, "preaged": draw(st.booleans()), "end": draw(st.sampled_from(["commit", "commit", "commit", "rollback"])), "which": draw(st.integers(0, 2))})
+        txs.append({"op": op, "preaged": draw(st.booleans()), "end": draw(st.sampled_from(["commit", "commit", "commit", "rollback"])), "which": draw(st.integers(0, 2)),
+                    "late": draw(st.integers(0, 5)) == 0})
     n = 1 + len(txs)
     order = draw(st.permutations(list(range(n))))
     pre = [[draw(st.integers(1, 200)), draw(st.integers(0, n - 1))] for _ in range(draw(st.integers(0, 3)))]
